@@ -13,6 +13,9 @@ package model
 //@ spec cmdHasFct(c CmdType) bool
 //@ spec cmdFct(c CmdType) FunctionType
 
+// every tagged data field of CmdType names its function (table lemma L5 of the C05 check, re-extracted from the struct tags on every run)
+//@ axiom forall c CmdType :: {cmdHasData(c)} cmdHasData(c) ==> cmdHasFct(c)
+
 //@ func (*CmdType).Data trusted reflective
 //@   requires cmd != nil
 //@   ensures (result1 == nil) <==> cmdHasData(*cmd)
